@@ -533,7 +533,7 @@ fn main() {
         return;
     }
     let thorough = args.thorough() || args.search;
-    let cases = args.budget(70, 700);
+    let cases = args.budget(300, 2500);
     for name in ["midseg", "syncend"] {
         run(&mut rec, args.seed, 0, thorough, Some(name));
     }
